@@ -91,6 +91,12 @@ CLAIMED = {
         text='Order independence is decided compositionally: for every pair of athletes and every two trial kinds the two orders are accepted alike and end in observationally equal states (z3 obligation over symbolic pre-states), '
              'which by induction on adjacent transpositions covers every interleaving that keeps each athlete\'s own sequence; with the log-append lemma and determinism this gives replay equivalence.',
         note='Trusted: the regular-phase / first-jump-off-height representation invariant (harness/hj.py), validated on every path by rebuilding the solver witness through the public API and comparing all fields, and inductively by clause inv; z3 LIA. Bounds: quick 2 athletes x 2 heights, thorough 3 x 3; deeper jump-offs and from_matrix parsing are outside. to_matrix/from_matrix run on concretised witnesses only.'),
+    'C14': dict(
+        category='model_checking', design_ref='DESIGN.md section 3 C14',
+        technique='symbolic execution of the real AgeGrader with a real-valued symbolic age, symbolic performance and symbolic gender/event spellings; doubles as reals with monotone rounding, quotients by symbolic values as an uninterpreted function with order facts; z3 (cvc5 fallback)',
+        text='The age is a solver variable over the whole covered range (every interpolation interval is a path), so "defined, finite, positive" and the grade identity hold for every age, not for sampled ones; '
+             'spellings are symbolic strings; order of grades for adjacent marks is an obligation over a symbolic mark. Finite facts (grade 1.0 at factor-1 ages, clamping past the last column, athlon bands) are exhaustive concrete runs, reported as such.',
+        note='Float abstraction is sound for order/sign, the grade clause is a term identity; strictness of "grades higher" is not proved. One known finding (2015 table: no women\'s PV factors after 90).'),
 }
 
 NOT_APPLICABLE = {
